@@ -221,6 +221,20 @@ func renderStmt(st Step) string {
 		for _, v := range st.Rows {
 			rows = append(rows, renderRow(v))
 		}
+		for _, v := range st.Rows {
+			if v == -5 {
+				// every row leaves the INT column out; row -5 is 1 (NULL flag) + 1 + 4 + 395 = 401 bytes: one over the limit
+				rows = rows[:0]
+				for _, u := range st.Rows {
+					b := bOf(u)
+					if u == -5 {
+						b = strings.Repeat("n", 395)
+					}
+					rows = append(rows, "('"+b+"')")
+				}
+				return fmt.Sprintf("INSERT INTO %s (b) VALUES %s", st.T, strings.Join(rows, ", "))
+			}
+		}
 		if len(st.Rows) == 1 && st.Rows[0] == 9 {
 			return fmt.Sprintf("INSERT INTO %s (b) VALUES ('rn')", st.T)
 		}
@@ -1422,6 +1436,15 @@ func randomRun(rq RandReq) (res Result) {
 				}
 				st.Rows[k] = -1 - rng.Intn(2)*3 // wrong type, or INT out of range
 			}
+			if rq.LongBad > 0 && rng.Intn(4) == 0 {
+				// rows with the INT column left out (NULL): all fit but one, which is one byte over the limit
+				n := 2 + rng.Intn(4)
+				st.Rows = make([]int, n)
+				for j := range st.Rows {
+					st.Rows[j] = 1 + rng.Intn(6)
+				}
+				st.Rows[1+rng.Intn(n-1)] = -5
+			}
 			evm["rows"] = st.Rows
 		case p < 93:
 			st.A = "create"
@@ -1458,6 +1481,9 @@ func randomRun(rq RandReq) (res Result) {
 				// the statement's dirty set did not fit the cache: the precondition of C16 (and of "an error changes
 				// nothing") is not met for this statement. Nothing of it was logged or flushed, so the process is
 				// abandoned here and restarted: the tables are then as before the statement, and the run goes on.
+				if d := storage.VerifDirtyCount(w.sess.RelationService); d < rq.Cache {
+					return fail(fmt.Sprintf("statement %q was refused with %q, but only %d of the %d pages of the cache are dirty", renderStmt(st), e.Error(), d, rq.Cache))
+				}
 				res.Stats["cachefull-stmts"]++
 				if res.Stats["cachefull-stmts"] > rq.N/4 {
 					res.CacheFul = true
@@ -1482,6 +1508,11 @@ func randomRun(rq RandReq) (res Result) {
 				res.OK = false
 				res.Viol = append(res.Viol, probs...)
 				return
+			}
+		}
+		if rq.Cache > 0 {
+			if n := storage.VerifCacheLen(w.sess.RelationService); n > rq.Cache {
+				return fail(fmt.Sprintf("the page cache holds %d pages, its capacity is %d", n, rq.Cache))
 			}
 		}
 		res.Stats["stmts"]++
